@@ -367,7 +367,7 @@ type c14Step struct {
 	vr    string // assigned variable, "a" or "b"
 	paths [][]string
 	vals  []string // "str", "list", "map", "self"
-	core  bool     // member of the reduced alphabet used at the deepest level
+	tier  int      // 0 core, 1 middle, 2 full alphabet only
 }
 
 func c14LValue(vr string, path []string) string {
@@ -513,46 +513,69 @@ func c14Apply(s *c14Step, st c14State, i int) c14Outcome {
 	return o
 }
 
+// c14Alphabet is the statement alphabet. tier 0 = core (deepest level of the
+// quick run), tier <= 1 = middle alphabet (deepest level of the thorough run),
+// every statement is used at levels 1 and 2.
 func c14Alphabet() []*c14Step {
 	var out []*c14Step
-	coreP := func(p []string) bool {
-		s := strings.Join(p, ",")
-		return s == "0" || s == "-1" || s == "k" || s == "0,0" || s == "0,k" || s == "k,0" || s == "k,k" || s == "-1,0"
+	add := func(tier int, kind, vr string, vals []string, paths ...[]string) {
+		out = append(out, &c14Step{kind: kind, vr: vr, paths: paths, vals: vals, tier: tier})
 	}
+	str, list, mp, self := []string{"str"}, []string{"list"}, []string{"map"}, []string{"self"}
+	midP := map[string]bool{"0": true, "-1": true, "k": true, "0,0": true, "0,k": true, "k,0": true, "k,k": true, "-1,0": true}
+	core := map[string]bool{"set 0 list": true, "set k list": true, "set 0,0 str": true, "set k,0 str": true, "set -1 self": true,
+		"del k": true, "del 0,k": true, "tmp 0,0 list": true}
 	for _, p := range c14Paths {
-		for _, v := range []string{"str", "list", "map", "self"} {
-			out = append(out, &c14Step{kind: "set", vr: "a", paths: [][]string{p}, vals: []string{v},
-				core: coreP(p) && (v == "list" || v == "str" && len(p) > 1 || v == "map" && len(p) == 1)})
+		ps := strings.Join(p, ",")
+		tier := func(name string, mid bool) int {
+			switch {
+			case core[name]:
+				return 0
+			case mid && midP[ps]:
+				return 1
+			}
+			return 2
 		}
-		out = append(out, &c14Step{kind: "del", vr: "a", paths: [][]string{p}, core: coreP(p) && p[len(p)-1] == "k"})
-		out = append(out, &c14Step{kind: "tmp", vr: "a", paths: [][]string{p}, vals: []string{"list"}, core: len(p) == 2 && coreP(p)})
-		out = append(out, &c14Step{kind: "with", vr: "a", paths: [][]string{p}, vals: []string{"list"}, core: len(p) == 2 && coreP(p)})
+		add(tier("set "+ps+" str", true), "set", "a", str, p)
+		add(tier("set "+ps+" list", true), "set", "a", list, p)
+		add(tier("set "+ps+" map", false), "set", "a", mp, p)
+		add(tier("set "+ps+" self", true), "set", "a", self, p)
+		add(tier("del "+ps, true), "del", "a", nil, p)
+		add(tier("tmp "+ps+" list", true), "tmp", "a", list, p)
+		add(tier("with "+ps+" list", true), "with", "a", list, p)
 	}
 	pairs := [][2][]string{
 		{{"0"}, {"1"}}, {{"k"}, {"m"}}, {{"0", "0"}, {"0", "1"}}, {{"0", "0"}, {"-1"}},
 		{{"k", "0"}, {"m", "k"}}, {{"k", "k"}, {"k", "m"}}, {{"0"}, {"0", "0"}},
 	}
 	for n, pr := range pairs {
-		ps := [][]string{pr[0], pr[1]}
+		t := 2
+		if n < 3 {
+			t = 1
+		}
 		vs := []string{"str", "list"}
-		out = append(out, &c14Step{kind: "set-multi", vr: "a", paths: ps, vals: vs, core: n < 2})
-		out = append(out, &c14Step{kind: "tmp-multi", vr: "a", paths: ps, vals: vs})
-		out = append(out, &c14Step{kind: "tmp-seq", vr: "a", paths: ps, vals: vs, core: n < 2})
-		out = append(out, &c14Step{kind: "with-multi", vr: "a", paths: ps, vals: vs})
-		out = append(out, &c14Step{kind: "with-seq", vr: "a", paths: ps, vals: vs, core: n < 2})
-		out = append(out, &c14Step{kind: "del-multi", vr: "a", paths: ps})
+		add(t, "set-multi", "a", vs, pr[0], pr[1])
+		add(2, "tmp-multi", "a", vs, pr[0], pr[1])
+		add(t, "tmp-seq", "a", vs, pr[0], pr[1])
+		add(2, "with-multi", "a", vs, pr[0], pr[1])
+		add(t, "with-seq", "a", vs, pr[0], pr[1])
+		add(t, "del-multi", "a", nil, pr[0], pr[1])
 	}
 	for _, p := range [][]string{{"0"}, {"k"}, {"0", "0"}, {"k", "k"}} {
-		ps := [][]string{p}
-		out = append(out, &c14Step{kind: "tmp-fail", vr: "a", paths: ps, vals: []string{"list"}})
-		out = append(out, &c14Step{kind: "with-fail", vr: "a", paths: ps, vals: []string{"list"}})
-		out = append(out, &c14Step{kind: "set-upvalue", vr: "a", paths: ps, vals: []string{"list"}})
-		out = append(out, &c14Step{kind: "del-upvalue", vr: "a", paths: ps})
+		add(2, "tmp-fail", "a", list, p)
+		add(2, "with-fail", "a", list, p)
+		add(2, "set-upvalue", "a", list, p)
+		add(2, "del-upvalue", "a", nil, p)
 	}
 	for _, p := range [][]string{{"0"}, {"-1"}, {"k"}, {"0", "0"}, {"k", "0"}, {"k", "k"}} {
-		out = append(out, &c14Step{kind: "set-other", vr: "b", paths: [][]string{p}, vals: []string{"str"}, core: len(p) == 1})
+		t := 2
+		if len(p) == 1 {
+			t = 1
+		}
+		add(t, "set-other", "b", str, p)
 	}
-	out = append(out, &c14Step{kind: "rebind-b", vr: "b", core: true}, &c14Step{kind: "rebind-a", vr: "a"})
+	add(1, "rebind-b", "b", nil)
+	add(2, "rebind-a", "a", nil)
 	return out
 }
 
@@ -850,28 +873,26 @@ func c14RunHistory(shapes []*c14Val, alpha []*c14Step, nd c14Node) (res c14Resul
 
 func TestVerifC14(t *testing.T) {
 	vk.Run(t, "C14", "model_checking", func(c *vk.Ctx) {
-		depth := vk.Pick(c, 3, 4)
+		const depth = 3
+		lastTier := vk.Pick(c, 0, 1)
+		maxLevel := depth
 		if d, err := strconv.Atoi(os.Getenv("C14_DEPTH")); err == nil { // TEMPORARY
-			depth = d
+			maxLevel = d
 		}
 		shapes := c14Shapes()
 		alpha := c14Alphabet()
-		var coreIdx, allIdx []int
+		var lastIdx, allIdx []int
+		var labels, lastLabels []string
 		for i, s := range alpha {
 			allIdx = append(allIdx, i)
-			if s.core {
-				coreIdx = append(coreIdx, i)
-			}
-		}
-		var labels, coreLabels []string
-		for _, s := range alpha {
 			labels = append(labels, s.label())
-			if s.core {
-				coreLabels = append(coreLabels, s.label())
+			if s.tier <= lastTier {
+				lastIdx = append(lastIdx, i)
+				lastLabels = append(lastLabels, s.label())
 			}
 		}
-		c.Rule(fmt.Sprintf("breadth-first search over histories: initial value of $a (and its alias $b) from %d shapes; every history of <=%d steps over the %d-statement alphabet, the step at depth %d restricted to the %d-statement core alphabet (values vNxJ/pNxJ/wNxJ are fresh per step); a history is extended only from steps that the reference semantics lets succeed (a step that raises an exception leaves the state unchanged and is a leaf, as is a step on an element of a string); class = (statement kind, assigned value kinds, kinds of the containers walked by each path with ! where indexing fails, outcome, history length)",
-			len(shapes), depth, len(alpha), depth, len(coreIdx)))
+		c.Rule(fmt.Sprintf("breadth-first search over histories: initial value of $a (and its alias $b) from %d shapes; every history of <=%d steps whose steps 1 and 2 range over the %d-statement alphabet and whose step %d ranges over the %d-statement sub-alphabet (values vNxJ/pNxJ/wNxJ are fresh per step N and lvalue J); a history is extended only from steps that the reference semantics lets succeed (a step that must raise an exception leaves the state unchanged and is a leaf, as is a step on an element of a string); class = (statement kind, assigned value kinds, kinds of the containers walked by each path with ! where indexing fails, outcome, history length)",
+			len(shapes), depth, len(alpha), depth, len(lastIdx)))
 		c.Set("shapes", func() (o []string) {
 			for _, s := range shapes {
 				o = append(o, s.String())
@@ -879,7 +900,7 @@ func TestVerifC14(t *testing.T) {
 			return
 		}())
 		c.Set("alphabet", labels)
-		c.Set("core_alphabet", coreLabels)
+		c.Set("last_step_alphabet", lastLabels)
 		c.Assume("values are observed through their repr text (vals.ReprPlain) and through `put`; the reference model (strings, lists, string-keyed maps with recursive assoc/dissoc) is the trusted base",
 			"not judged: the value after assigning an element of a string (assoc is documented for lists and maps only) and after a multi-lvalue set/del whose later lvalue fails (the exception is demanded, atomicity is not documented)",
 			"one fresh Evaler per history; the prefix of a history was judged when it was a history of the previous level and is only replayed")
@@ -891,10 +912,10 @@ func TestVerifC14(t *testing.T) {
 		var states, transitions, validated int64 = int64(len(frontier)), 0, 0
 		abstract := map[string]bool{}
 		var perLevel []int64
-		for level := 1; level <= depth && len(frontier) > 0; level++ {
+		for level := 1; level <= maxLevel && len(frontier) > 0; level++ {
 			syms := allIdx
-			if level == depth && depth > 2 {
-				syms = coreIdx
+			if level == depth {
+				syms = lastIdx
 			}
 			n := len(frontier) * len(syms)
 			results := make([]c14Result, n)
